@@ -643,3 +643,25 @@ Proof.
   - rewrite R_flags_other by lia. apply R_setR_same.
   - intros i Hi N1 N2. rewrite R_flags_other by lia. apply R_setR_other; lia.
 Qed.
+
+(* ---- halfword and byte compare / test: only the condition codes change ---- *)
+Definition cmp_flags (opc a b : Z) : option (bool * bool * bool) :=     (* Z, N, C *)
+  if opc =? 62 then Some (w16 b =? w16 a, s16 b <? s16 a, w16 b <? w16 a)
+  else if opc =? 63 then Some (w8 b =? w8 a, s8 b <? s8 a, w8 b <? w8 a)
+  else None.
+
+Theorem cmp_small_final ir m a b z n c :
+  cmp_flags (iopcode ir) a b = Some (z, n, c) -> read_op ir 0 m = Ok a m -> read_op ir 1 m = Ok b m ->
+  exists m', exec ir m = Ok (ilen ir) m'
+    /\ flag F_Z m' = z /\ flag F_N m' = n /\ flag F_C m' = c /\ flag F_V m' = false
+    /\ (forall i, 0 <= i <= 15 -> i <> 11 -> R m' i = R m i) /\ mbus m' = mbus m.
+Proof.
+  unfold cmp_flags. intros Hf R0 R1.
+  destruct (iopcode ir =? 62) eqn:E62; [|destruct (iopcode ir =? 63) eqn:E63; [|discriminate]];
+    injection Hf as <- <- <-;
+    [assert (Ho : iopcode ir = 62) by lia | assert (Ho : iopcode ir = 63) by lia];
+    unfold exec; rewrite Ho; cbn [Z.eqb Pos.eqb orb]; rewrite R0; cbn [bind]; rewrite R1; cbn [bind];
+    (eexists; split; [reflexivity|]);
+    (split; [flags; reflexivity|]); (split; [flags; reflexivity|]); (split; [flags; reflexivity|]); (split; [flags; reflexivity|]);
+    (split; [|reflexivity]); intros i Hi N; unfold set_v, set_c, set_z, set_n; rewrite !R_setf_other by lia; reflexivity.
+Qed.
